@@ -428,6 +428,8 @@ class Grammar:
         g.preprocess()
         if any(["weight" in get_gengy(p) for p in list(considered_subtypes) + list(g.all_nodes)]):
             g.update_weights(1, g.get_weights())
+        else:
+            g.weights = g.get_weights()
         return g
 
     def get_grammar_properties_summary(self) -> GrammarSummary:
@@ -509,4 +511,8 @@ def extract_grammar(
     # without having to be listed among the supplied classes
     if any(["weight" in get_gengy(p) for p in list(considered_subtypes) + list(g.all_nodes)]):
         g.update_weights(1, g.get_weights())
+    else:
+        # no weight is declared: the grammar keeps that too (like a normalised table), so that a weight declared on a
+        # class later - for another grammar - does not change what this one does
+        g.weights = g.get_weights()
     return g
